@@ -54,11 +54,11 @@ def in_progress_state(repo):
     gd = os.path.join(repo, ".git")
     out = {}
     for name in ("MERGE_HEAD", "CHERRY_PICK_HEAD", "REVERT_HEAD", "MERGE_MSG", "SQUASH_MSG", "ORIG_HEAD",
-                 "AUTO_MERGE", "BISECT_LOG"):
+                 "AUTO_MERGE", "BISECT_LOG", "FETCH_HEAD"):
         p = os.path.join(gd, name)
         if os.path.exists(p):
             with open(p, "rb") as f:
-                out[name] = sha(f.read())
+                out[name] = sha(f.read().replace(repo.encode(), b"{REPO}"))
     for d in ("rebase-merge", "rebase-apply", "sequencer"):
         p = os.path.join(gd, d)
         if os.path.isdir(p):
